@@ -309,3 +309,14 @@ package cache
 //@   nosafety all pre
 //@   assert at call middleware/cache.NewCacheEntryWithKey#1: arg0 == lastret("middleware/cache.filterCacheableAnswer")
 //@   assert at call (*middleware/cache.Store).RecordFailure#1: arg1 == lastret("middleware/cache.filterCacheableAnswer")
+//@
+//@ # ---- C01: the composed (CNAME-chased) wire reply says AD only if EVERY chained segment was stored as authenticated
+//@ # and the client did not set CD; whenever the verdict is "not AD" the AD bit of the reply header has been cleared
+//@ func composeWireChase
+//@   abstract
+//@   nosafety all pre
+//@   loop 1 invariant 0 <= i && i <= len(segs) && (ad ==> forall j int :: {segs[j].ad} 0 <= j && j < i ==> old(segs[j].ad))
+//@   assert at return#5: result2 && (result1.AuthenticatedData ==> !lastret("(*middleware.Request).CD") && forall j int :: {segs[j].ad} 0 <= j && j < len(segs) ==> old(segs[j].ad))
+//@   assert at return#5: !result1.AuthenticatedData ==> calls("internal/wire.ClearAD") >= 1
+//@   assert at call internal/wire.ClearAD#1: arg0 == body
+//@   assert at call internal/wire.ClearAD#2: arg0 == body
